@@ -823,3 +823,552 @@ class Model:
                 return ('sym', None, None, e.get('hidden', False), e['target'], mode)
             return ('file', 0, None, e.get('hidden', False), None, None)   # physical ISO view of an RR symlink
         return ('file', 0, None, e.get('hidden', False), None, mode)
+
+
+# ----------------------------------------------------------------------------- C14: refusal catalogue
+def _k(ns):
+    return {'iso': 'iso_path', 'jol': 'joliet_path', 'udf': 'udf_path'}[ns]
+
+
+class BadCatalogue:
+    """Every way a public mutator can be refused that the source shows (DESIGN.md appendix A), as
+    constructors of a concrete refused call from the current model state.  `staged` rows are refused
+    only after an earlier part of the same call (an earlier namespace, a side-effecting helper) ran."""
+
+    def __init__(self, model):
+        self.m = model
+
+    # helpers -------------------------------------------------------------
+    def fresh(self, op, isdir=False):
+        m = self.m
+        nm = m._new_names(op, isdir)
+        out = {}
+        for ns in m.enabled():
+            out[ns] = join('/', nm[ns])
+        return nm, out
+
+    def existing(self, ns, types, op):
+        m = self.m
+        c = sorted(p for p, e in m.t[ns].items() if p != '/' and e['type'] in types)
+        if not c:
+            raise Skip('nothing existing in ' + ns)
+        return c[op.get('i', 0) % len(c)]
+
+    def base_add(self, op, isdir=False):
+        m = self.m
+        nm, paths = self.fresh(op, isdir)
+        kw = {}
+        for ns, p in paths.items():
+            kw[_k(ns)] = p
+        if m.rr:
+            kw['rr_name'] = nm['rr']
+        return nm, paths, kw
+
+    def content_args(self, op):
+        return {'__content__': (op['n'], op.get('len', 5))}
+
+    # rows: name -> (method, staged, builder) ---------------------------------
+    def rows(self):
+        return [
+            ('add_fp/dup-iso', 'add_fp', False, self.add_dup('iso', False)),
+            ('add_fp/dup-joliet-after-iso', 'add_fp', True, self.add_dup('jol', False)),
+            ('add_fp/dup-udf-after-iso-joliet', 'add_fp', True, self.add_dup('udf', False)),
+            ('add_fp/missing-parent-iso', 'add_fp', False, self.add_missing_parent('iso', False)),
+            ('add_fp/missing-parent-joliet-after-iso', 'add_fp', True, self.add_missing_parent('jol', False)),
+            ('add_fp/missing-parent-udf-after-iso-joliet', 'add_fp', True, self.add_missing_parent('udf', False)),
+            ('add_fp/illegal-iso-name', 'add_fp', False, self.add_illegal_iso(False)),
+            ('add_fp/joliet-name-too-long-after-iso', 'add_fp', True, self.add_long_joliet(False)),
+            ('add_fp/udf-name-too-long-after-iso-joliet', 'add_fp', True, self.add_long_udf(False)),
+            ('add_fp/rr-name-missing', 'add_fp', False, self.add_rr_missing(False)),
+            ('add_fp/rr-name-with-slash', 'add_fp', False, self.add_rr_slash(False)),
+            ('add_fp/file-mode-without-rr', 'add_fp', False, self.add_mode_norr(False)),
+            ('add_fp/joliet-path-on-non-joliet-after-iso', 'add_fp', True, self.add_foreign_ns('jol', False)),
+            ('add_fp/udf-path-on-non-udf-after-iso', 'add_fp', True, self.add_foreign_ns('udf', False)),
+            ('add_fp/parent-is-a-file', 'add_fp', False, self.add_parent_is_file),
+            ('add_directory/dup-iso', 'add_directory', False, self.add_dup('iso', True)),
+            ('add_directory/dup-joliet-after-iso', 'add_directory', True, self.add_dup('jol', True)),
+            ('add_directory/dup-udf-after-iso-joliet', 'add_directory', True, self.add_dup('udf', True)),
+            ('add_directory/missing-parent-joliet-after-iso', 'add_directory', True, self.add_missing_parent('jol', True)),
+            ('add_directory/missing-parent-udf-after-iso-joliet', 'add_directory', True, self.add_missing_parent('udf', True)),
+            ('add_directory/illegal-iso-name', 'add_directory', False, self.add_illegal_iso(True)),
+            ('add_directory/joliet-name-too-long-after-iso', 'add_directory', True, self.add_long_joliet(True)),
+            ('add_directory/udf-name-too-long-after-iso-joliet', 'add_directory', True, self.add_long_udf(True)),
+            ('add_directory/too-deep', 'add_directory', False, self.add_too_deep),
+            ('add_directory/joliet-path-on-non-joliet-after-iso', 'add_directory', True, self.add_foreign_ns('jol', True)),
+            ('add_directory/udf-path-on-non-udf-after-iso', 'add_directory', True, self.add_foreign_ns('udf', True)),
+            ('add_directory/relocated-dup-after-rr-moved', 'add_directory', True, self.add_dir_relocated_dup),
+            ('rm_file/missing', 'rm_file', False, self.rm_missing('rm_file')),
+            ('rm_file/is-a-directory', 'rm_file', False, self.rm_wrong_type('rm_file', ('dir',))),
+            ('rm_file/boot-referenced', 'rm_file', False, self.rm_boot_referenced),
+            ('rm_directory/not-empty', 'rm_directory', False, self.rmdir_nonempty),
+            ('rm_directory/root', 'rm_directory', False, lambda op: ('rm_directory', {'iso_path': '/'})),
+            ('rm_directory/is-a-file', 'rm_directory', False, self.rm_wrong_type('rm_directory', ('file',))),
+            ('rm_directory/missing', 'rm_directory', False, self.rm_missing('rm_directory')),
+            ('rm_directory/joliet-missing-after-iso', 'rm_directory', True, self.rmdir_second_stage('jol')),
+            ('rm_directory/udf-missing-after-iso', 'rm_directory', True, self.rmdir_second_stage('udf')),
+            ('rm_directory/joliet-not-empty-after-iso', 'rm_directory', True, self.rmdir_second_stage_nonempty('jol')),
+            ('rm_directory/udf-not-empty-after-iso', 'rm_directory', True, self.rmdir_second_stage_nonempty('udf')),
+            ('add_hard_link/no-old-path', 'add_hard_link', False, self.link_no_old),
+            ('add_hard_link/two-old-paths', 'add_hard_link', False, self.link_two_old),
+            ('add_hard_link/unknown-keyword', 'add_hard_link', False, self.link_unknown_kw),
+            ('add_hard_link/missing-old', 'add_hard_link', False, self.link_missing_old),
+            ('add_hard_link/dup-new', 'add_hard_link', False, self.link_dup_new),
+            ('add_hard_link/new-parent-missing', 'add_hard_link', False, self.link_new_parent_missing),
+            ('add_hard_link/boot-catalog-without-eltorito', 'add_hard_link', False, self.link_cat_none),
+            ('rm_hard_link/two-paths', 'rm_hard_link', False, self.rmlink_two),
+            ('rm_hard_link/missing', 'rm_hard_link', False, self.rm_missing('rm_hard_link')),
+            ('rm_hard_link/is-a-directory', 'rm_hard_link', False, self.rm_wrong_type('rm_hard_link', ('dir',))),
+            ('add_symlink/no-rr-no-udf', 'add_symlink', False, self.sym_unsupported),
+            ('add_symlink/rr-name-without-target', 'add_symlink', False, self.sym_half_rr),
+            ('add_symlink/dup-iso', 'add_symlink', False, self.sym_dup('iso')),
+            ('add_symlink/dup-udf-after-rr', 'add_symlink', True, self.sym_dup('udf')),
+            ('add_symlink/dup-joliet-after-rr', 'add_symlink', True, self.sym_dup('jol')),
+            ('add_symlink/joliet-on-non-joliet', 'add_symlink', False, self.sym_foreign_joliet),
+            ('add_eltorito/missing-bootfile', 'add_eltorito', False, self.boot_missing),
+            ('add_eltorito/invalid-media-name', 'add_eltorito', True, self.boot_bad('media_name', 'cdrom')),
+            ('add_eltorito/invalid-platform', 'add_eltorito', True, self.boot_bad('platform_id', 7)),
+            ('add_eltorito/floppy-wrong-size', 'add_eltorito', True, self.boot_bad('media_name', 'floppy')),
+            ('add_eltorito/hdemul-without-mbr', 'add_eltorito', True, self.boot_bad('media_name', 'hdemul')),
+            ('add_eltorito/joliet-catalog-on-non-joliet', 'add_eltorito', False, self.boot_foreign('joliet_bootcatfile')),
+            ('add_eltorito/udf-catalog-on-non-udf', 'add_eltorito', False, self.boot_foreign('udf_bootcatfile')),
+            ('add_eltorito/dup-catalog-iso', 'add_eltorito', True, self.boot_dup_catalog('iso')),
+            ('add_eltorito/dup-catalog-joliet-after-iso', 'add_eltorito', True, self.boot_dup_catalog('jol')),
+            ('add_eltorito/dup-catalog-udf-after-iso-joliet', 'add_eltorito', True, self.boot_dup_catalog('udf')),
+            ('add_eltorito/boot-info-table-then-refused', 'add_eltorito', True, self.boot_bit_then_refused),
+            ('rm_eltorito/none-present', 'rm_eltorito', False, self.rm_boot_none),
+            ('add_isohybrid/no-eltorito', 'add_isohybrid', False, self.hyb_none),
+            ('add_isohybrid/bad-geometry', 'add_isohybrid', True, self.hyb_bad({'geometry_sectors': 64})),
+            ('add_isohybrid/mac-part-type', 'add_isohybrid', True, self.hyb_bad({'mac': True, 'part_type': 0x17})),
+            ('add_isohybrid/mac-without-efi', 'add_isohybrid', False, self.hyb_bad({'mac': True, 'efi': False})),
+            ('set_relocated_name/already-set', 'set_relocated_name', False, self.reloc_twice),
+            ('set_relocated_name/no-rock-ridge', 'set_relocated_name', False, self.reloc_norr),
+            ('set_relocated_name/illegal-name', 'set_relocated_name', True, self.reloc_illegal),
+            ('set_hidden/two-paths', 'set_hidden', False, self.hide_two),
+            ('set_hidden/missing', 'set_hidden', False, lambda op: ('set_hidden', {'iso_path': '/NOSUCH.;1'})),
+            ('new/already-initialized', 'new', False, lambda op: ('new', {})),
+        ]
+
+    # builders --------------------------------------------------------------
+    def add_dup(self, ns, isdir):
+        def b(op):
+            m = self.m
+            if not m.has[ns]:
+                raise Skip('namespace off')
+            nm, paths, kw = self.base_add(op, isdir)
+            kw[_k(ns)] = self.existing(ns, ('dir',) if isdir else ('file', 'sym', 'null'), op)
+            if ns == 'iso' and m.rr:
+                kw['rr_name'] = nm['rr']
+            meth = 'add_directory' if isdir else 'add_fp'
+            if not isdir:
+                kw.update(self.content_args(op))
+            return meth, kw
+        return b
+
+    def add_missing_parent(self, ns, isdir):
+        def b(op):
+            m = self.m
+            if not m.has[ns]:
+                raise Skip('namespace off')
+            nm, paths, kw = self.base_add(op, isdir)
+            kw[_k(ns)] = '/NOSUCHDIR' + paths[ns]
+            if not isdir:
+                kw.update(self.content_args(op))
+            return ('add_directory' if isdir else 'add_fp'), kw
+        return b
+
+    def add_illegal_iso(self, isdir):
+        def b(op):
+            if self.m.level == 4:
+                raise Skip('level 4 takes any character')
+            nm, paths, kw = self.base_add(op, isdir)
+            kw['iso_path'] = '/lower' + ('' if isdir else '.x;1')
+            if not isdir:
+                kw.update(self.content_args(op))
+            return ('add_directory' if isdir else 'add_fp'), kw
+        return b
+
+    def add_long_joliet(self, isdir):
+        def b(op):
+            if not self.m.has['jol']:
+                raise Skip('no joliet')
+            nm, paths, kw = self.base_add(op, isdir)
+            kw['joliet_path'] = '/' + 'j' * 65
+            if not isdir:
+                kw.update(self.content_args(op))
+            return ('add_directory' if isdir else 'add_fp'), kw
+        return b
+
+    def add_long_udf(self, isdir):
+        def b(op):
+            if not self.m.has['udf']:
+                raise Skip('no udf')
+            nm, paths, kw = self.base_add(op, isdir)
+            kw['udf_path'] = '/' + 'u' * 255
+            if not isdir:
+                kw.update(self.content_args(op))
+            return ('add_directory' if isdir else 'add_fp'), kw
+        return b
+
+    def add_rr_missing(self, isdir):
+        def b(op):
+            if not self.m.rr:
+                raise Skip('no rr')
+            nm, paths, kw = self.base_add(op, isdir)
+            kw.pop('rr_name', None)
+            if not isdir:
+                kw.update(self.content_args(op))
+            return ('add_directory' if isdir else 'add_fp'), kw
+        return b
+
+    def add_rr_slash(self, isdir):
+        def b(op):
+            if not self.m.rr:
+                raise Skip('no rr')
+            nm, paths, kw = self.base_add(op, isdir)
+            kw['rr_name'] = 'a/b'
+            if not isdir:
+                kw.update(self.content_args(op))
+            return ('add_directory' if isdir else 'add_fp'), kw
+        return b
+
+    def add_mode_norr(self, isdir):
+        def b(op):
+            if self.m.rr:
+                raise Skip('rr image')
+            nm, paths, kw = self.base_add(op, isdir)
+            kw['file_mode'] = 0o100444
+            if not isdir:
+                kw.update(self.content_args(op))
+            return ('add_directory' if isdir else 'add_fp'), kw
+        return b
+
+    def add_foreign_ns(self, ns, isdir):
+        def b(op):
+            if self.m.has[ns]:
+                raise Skip('namespace present')
+            nm, paths, kw = self.base_add(op, isdir)
+            kw[_k(ns)] = '/foreign%d' % op['n']
+            if not isdir:
+                kw.update(self.content_args(op))
+            return ('add_directory' if isdir else 'add_fp'), kw
+        return b
+
+    def add_parent_is_file(self, op):
+        f = self.existing('iso', ('file',), op)
+        nm, paths, kw = self.base_add(op, False)
+        kw['iso_path'] = f + '/' + nm['iso']
+        kw.update(self.content_args(op))
+        return 'add_fp', kw
+
+    def add_too_deep(self, op):
+        m = self.m
+        if m.rr or m.level == 4:
+            raise Skip('no depth limit')
+        deep = sorted(p for p, e in m.t['iso'].items() if e['type'] == 'dir' and depth(p) == 7)
+        if not deep:
+            raise Skip('no depth-7 directory')
+        nm, paths, kw = self.base_add(op, True)
+        kw['iso_path'] = deep[op.get('i', 0) % len(deep)] + '/' + nm['iso']
+        return 'add_directory', kw
+
+    def add_dir_relocated_dup(self, op):
+        m = self.m
+        if not (m.rr and m.level < 4):
+            raise Skip('no relocation')
+        cands = sorted(p for p, e in m.t['iso'].items() if e.get('reloc'))
+        if not cands:
+            raise Skip('nothing relocated')
+        nm, paths, kw = self.base_add(op, True)
+        kw['iso_path'] = cands[op.get('i', 0) % len(cands)]     # duplicate of an already relocated directory
+        return 'add_directory', kw
+
+    def rm_missing(self, meth):
+        def b(op):
+            ns = self.m.enabled()[op.get('i', 0) % len(self.m.enabled())]
+            return meth, {_k(ns): '/NOSUCH%d' % op['n']}
+        return b
+
+    def rm_wrong_type(self, meth, types):
+        def b(op):
+            ns = self.m.enabled()[op.get('i', 0) % len(self.m.enabled())]
+            return meth, {_k(ns): self.existing(ns, types, op)}
+        return b
+
+    def rm_boot_referenced(self, op):
+        m = self.m
+        if m.boot is None:
+            raise Skip('no boot')
+        names = sorted(n for e in m.boot['entries'] for n in (m.blobs[e['blob']].names if e['blob'] in m.blobs else ()))
+        names += sorted(m.blobs[-1].names) if -1 in m.blobs else []
+        if not names:
+            raise Skip('no names')
+        ns, p = names[op.get('i', 0) % len(names)]
+        return 'rm_file', {_k(ns): p}
+
+    def rmdir_nonempty(self, op):
+        m = self.m
+        c = sorted((ns, p) for ns in m.enabled() for p, e in m.t[ns].items() if p != '/' and e['type'] == 'dir' and not m.is_empty(ns, p))
+        if not c:
+            raise Skip('no non-empty dir')
+        ns, p = c[op.get('i', 0) % len(c)]
+        return 'rm_directory', {_k(ns): p}
+
+    def _empty_iso_dir(self, op):
+        m = self.m
+        c = sorted(g for g, w in m.gids.items() if g != 0 and 'iso' in w and all(m.is_empty(ns, p) for ns, p in w.items()) and not m.t['iso'][w['iso']].get('reloc'))
+        if not c:
+            raise Skip('no empty iso dir')
+        return m.gids[c[op.get('i', 0) % len(c)]]
+
+    def rmdir_second_stage(self, ns):
+        def b(op):
+            if not self.m.has[ns]:
+                raise Skip('namespace off')
+            w = self._empty_iso_dir(op)
+            return 'rm_directory', {'iso_path': w['iso'], _k(ns): '/NOSUCH%d' % op['n']}
+        return b
+
+    def rmdir_second_stage_nonempty(self, ns):
+        def b(op):
+            m = self.m
+            if not m.has[ns]:
+                raise Skip('namespace off')
+            w = self._empty_iso_dir(op)
+            c = sorted(p for p, e in m.t[ns].items() if p != '/' and e['type'] == 'dir' and not m.is_empty(ns, p))
+            if not c:
+                raise Skip('no non-empty dir in ' + ns)
+            return 'rm_directory', {'iso_path': w['iso'], _k(ns): c[op.get('i', 0) % len(c)]}
+        return b
+
+    def link_no_old(self, op):
+        nm, paths = self.fresh(op)
+        return 'add_hard_link', {'iso_new_path': paths['iso'], 'rr_name': nm['rr']} if self.m.rr else {'iso_new_path': paths['iso']}
+
+    def link_two_old(self, op):
+        f = self.existing('iso', ('file',), op)
+        nm, paths = self.fresh(op)
+        kw = {'iso_old_path': f, 'iso_new_path': paths['iso']}
+        if self.m.has['jol']:
+            kw['joliet_old_path'] = self.existing('jol', ('file',), op)
+        else:
+            kw['boot_catalog_old'] = True
+            if self.m.boot is None:
+                raise Skip('needs joliet or boot')
+        if self.m.rr:
+            kw['rr_name'] = nm['rr']
+        return 'add_hard_link', kw
+
+    def link_unknown_kw(self, op):
+        f = self.existing('iso', ('file',), op)
+        nm, paths = self.fresh(op)
+        return 'add_hard_link', {'iso_old_path': f, 'iso_new_path': paths['iso'], 'bogus_kw': 1}
+
+    def link_missing_old(self, op):
+        nm, paths = self.fresh(op)
+        kw = {'iso_old_path': '/NOSUCH%d.;1' % op['n'], 'iso_new_path': paths['iso']}
+        if self.m.rr:
+            kw['rr_name'] = nm['rr']
+        return 'add_hard_link', kw
+
+    def link_dup_new(self, op):
+        m = self.m
+        f = self.existing('iso', ('file',), op)
+        tns = m.enabled()[op.get('to', 0) % len(m.enabled())]
+        tgt = self.existing(tns, ('file', 'dir'), dict(op, i=op.get('i', 0) + 1))
+        kw = {'iso_old_path': f, {'iso': 'iso_new_path', 'jol': 'joliet_new_path', 'udf': 'udf_new_path'}[tns]: tgt}
+        if tns == 'iso' and m.rr:
+            kw['rr_name'] = self.m._new_names(op, False)['rr']
+        if m.t['iso'][f]['type'] == 'file' and m.blobs.get(m.t['iso'][f].get('blob')) is None:
+            raise Skip('dead')
+        return 'add_hard_link', kw
+
+    def link_new_parent_missing(self, op):
+        m = self.m
+        f = self.existing('iso', ('file',), op)
+        tns = m.enabled()[op.get('to', 0) % len(m.enabled())]
+        nm, paths = self.fresh(op)
+        kw = {'iso_old_path': f, {'iso': 'iso_new_path', 'jol': 'joliet_new_path', 'udf': 'udf_new_path'}[tns]: '/NOSUCHDIR' + paths[tns]}
+        if tns == 'iso' and m.rr:
+            kw['rr_name'] = nm['rr']
+        return 'add_hard_link', kw
+
+    def link_cat_none(self, op):
+        if self.m.boot is not None:
+            raise Skip('boot present')
+        nm, paths = self.fresh(op)
+        kw = {'boot_catalog_old': True, 'iso_new_path': paths['iso']}
+        if self.m.rr:
+            kw['rr_name'] = nm['rr']
+        return 'add_hard_link', kw
+
+    def rmlink_two(self, op):
+        m = self.m
+        f = self.existing('iso', ('file',), op)
+        other = 'jol' if m.has['jol'] else ('udf' if m.has['udf'] else None)
+        if other is None:
+            raise Skip('single namespace')
+        return 'rm_hard_link', {'iso_path': f, _k(other): self.existing(other, ('file',), op)}
+
+    def sym_unsupported(self, op):
+        if self.m.rr or self.m.has['udf']:
+            raise Skip('symlinks supported')
+        nm, paths = self.fresh(op)
+        return 'add_symlink', {'symlink_path': paths['iso'], 'rr_symlink_name': 'x', 'rr_path': 'y'}
+
+    def sym_half_rr(self, op):
+        if not self.m.rr:
+            raise Skip('no rr')
+        nm, paths = self.fresh(op)
+        return 'add_symlink', {'symlink_path': paths['iso'], 'rr_symlink_name': nm['rr']}
+
+    def sym_dup(self, ns):
+        def b(op):
+            m = self.m
+            if not m.has[ns]:
+                raise Skip('namespace off')
+            nm, paths = self.fresh(op)
+            kw = {}
+            if m.rr:
+                kw.update(symlink_path=paths['iso'], rr_symlink_name=nm['rr'], rr_path='target')
+            if ns == 'iso':
+                if not m.rr:
+                    raise Skip('iso symlink entry needs rr')
+                kw['symlink_path'] = self.existing('iso', ('file', 'sym', 'null', 'dir'), op)
+            elif ns == 'udf':
+                kw.update(udf_symlink_path=self.existing('udf', ('file', 'sym', 'dir'), op), udf_target='target')
+            else:
+                if not m.rr:
+                    raise Skip('joliet stage after rr only')
+                kw['joliet_path'] = self.existing('jol', ('file', 'null', 'dir'), op)
+            return 'add_symlink', kw
+        return b
+
+    def sym_foreign_joliet(self, op):
+        m = self.m
+        if m.has['jol'] or not (m.rr or m.has['udf']):
+            raise Skip('not applicable')
+        nm, paths = self.fresh(op)
+        kw = {'joliet_path': '/foreign'}
+        if m.rr:
+            kw.update(symlink_path=paths['iso'], rr_symlink_name=nm['rr'], rr_path='t')
+        else:
+            kw.update(udf_symlink_path=paths['udf'], udf_target='t')
+        return 'add_symlink', kw
+
+    def _bootfile(self, op):
+        m = self.m
+        c = sorted(p for b in m.blobs.values() if b.length > 0 and not b.catalog for ns, p in b.names if ns == 'iso')
+        if not c:
+            raise Skip('no iso file')
+        return c[op.get('i', 0) % len(c)]
+
+    def boot_missing(self, op):
+        return 'add_eltorito', {'bootfile_path': '/NOSUCH%d.;1' % op['n']}
+
+    def boot_bad(self, key, val):
+        def b(op):
+            m = self.m
+            f = self._bootfile(op)
+            blob = m.blobs[m.t['iso'][f]['blob']]
+            if key == 'media_name' and val == 'floppy' and blob.length in (1228800, 1474560, 2949120):
+                raise Skip('valid floppy')
+            if key == 'media_name' and val == 'hdemul' and blob.ckind == 2 and blob.length >= 512:
+                raise Skip('valid hd image')
+            kw = {'bootfile_path': f, key: val}
+            if op.get('bit') and blob.length >= 64 and not blob.bit:
+                kw['boot_info_table'] = True
+            return 'add_eltorito', kw
+        return b
+
+    def boot_foreign(self, key):
+        def b(op):
+            ns = 'jol' if key.startswith('joliet') else 'udf'
+            if self.m.has[ns]:
+                raise Skip('namespace present')
+            return 'add_eltorito', {'bootfile_path': self._bootfile(op), key: '/boot.cat'}
+        return b
+
+    def boot_dup_catalog(self, ns):
+        def b(op):
+            m = self.m
+            if m.boot is not None or not m.has[ns]:
+                raise Skip('catalog exists / namespace off')
+            nm, paths = self.fresh(op)
+            kw = {'bootfile_path': self._bootfile(op), 'bootcatfile': paths['iso']}
+            if m.rr:
+                kw['rr_bootcatname'] = nm['rr']
+            if m.has['jol']:
+                kw['joliet_bootcatfile'] = paths['jol']
+            if m.has['udf']:
+                kw['udf_bootcatfile'] = paths['udf']
+            key = {'iso': 'bootcatfile', 'jol': 'joliet_bootcatfile', 'udf': 'udf_bootcatfile'}[ns]
+            kw[key] = self.existing(ns, ('file', 'dir'), op)
+            return 'add_eltorito', kw
+        return b
+
+    def boot_bit_then_refused(self, op):
+        m = self.m
+        f = self._bootfile(op)
+        blob = m.blobs[m.t['iso'][f]['blob']]
+        if blob.length < 64 or blob.bit:
+            raise Skip('no room for a boot info table')
+        return 'add_eltorito', {'bootfile_path': f, 'boot_info_table': True, 'media_name': 'bogus'}
+
+    def rm_boot_none(self, op):
+        if self.m.boot is not None:
+            raise Skip('boot present')
+        return 'rm_eltorito', {}
+
+    def hyb_none(self, op):
+        if self.m.boot is not None:
+            raise Skip('boot present')
+        return 'add_isohybrid', {}
+
+    def hyb_bad(self, extra):
+        def b(op):
+            m = self.m
+            if m.boot is None:
+                raise Skip('no boot')
+            first = m.boot['entries'][0]
+            blob = m.blobs.get(first['blob'])
+            if first['load'] != 4 or blob is None or blob.ckind != 1 or blob.length < 0x44:
+                raise Skip('initial entry not hybrid-capable')
+            return 'add_isohybrid', dict(extra)
+        return b
+
+    def reloc_twice(self, op):
+        if not self.m.rr or self.m.reloc is None:
+            raise Skip('not set yet')
+        return 'set_relocated_name', {'name': 'OTHER%d' % (op['n'] % 100), 'rr_name': 'other'}
+
+    def reloc_norr(self, op):
+        if self.m.rr:
+            raise Skip('rr image')
+        return 'set_relocated_name', {'name': 'XMOVED', 'rr_name': 'xmoved'}
+
+    def reloc_illegal(self, op):
+        if not self.m.rr or self.m.reloc is not None or self.m.level == 4:
+            raise Skip('not applicable')
+        return 'set_relocated_name', {'name': 'lower case', 'rr_name': 'x'}
+
+    def hide_two(self, op):
+        f = self.existing('iso', ('file', 'dir'), op)
+        if self.m.has['jol']:
+            return 'set_hidden', {'iso_path': f, 'joliet_path': self.existing('jol', ('file', 'dir'), op)}
+        if self.m.rr:
+            return 'set_hidden', {'iso_path': f, 'rr_path': '/x'}
+        raise Skip('single path kind')
+
+
+def _op_bad(self, op):
+    cat = BadCatalogue(self)
+    rows = cat.rows()
+    name, meth, staged, builder = rows[op.get('w', 0) % len(rows)]
+    method, kw = builder(op)
+    c = Call(method, kw, lambda: None)
+    c.note = ('bad', name, staged)
+    return c
+
+
+Model.op_bad = _op_bad
+N_BAD_ROWS = len(BadCatalogue(Model({'level': 1})).rows())
